@@ -3,6 +3,7 @@ package main
 // Operators, conversions, interfaces, maps.
 
 import (
+	"os"
 	"sort"
 	"fmt"
 	"go/token"
@@ -540,6 +541,7 @@ func (r *FnRun) execLookup(st *State, x *ssa.Lookup) {
 	}
 	mt := x.X.Type().Underlying().(*types.Map)
 	h := r.scalar(r.val(x.X))
+	r.guardCheck(st, x.X, false, x.Pos(), describeInstr(x))
 	key := r.mapKeyOf(st, r.val(x.Index), mt.Key())
 	val, has := r.mapLookupVal(st, mt, h, key, x.Name())
 	// nil map reads as empty
@@ -559,6 +561,7 @@ func (r *FnRun) execMapUpdate(st *State, x *ssa.MapUpdate) {
 	if r.root.panics {
 		r.oblige(st, "panic", "nilmap", tb.Ne(h, tb.BVI(64, 0)), x.Pos(), describeInstr(x), []string{"C06"})
 	}
+	r.guardCheck(st, x.Map, true, x.Pos(), describeInstr(x))
 	key := r.mapKeyOf(st, r.val(x.Key), mt.Key())
 	old := r.mapVer(st, mt)
 	nv := tb.Fresh("MV", BV64)
@@ -663,4 +666,46 @@ func (r *FnRun) linkAttrs(st *State, iv IfaceV, T types.Type, okT *Term) {
 		}
 		r.assume(st, tb.Implies(okT, tb.Eq(at, bt)))
 	}
+}
+
+
+// guardCheck: an access to a package-level map declared `guard M by MU` needs MU held by the executing goroutine:
+// write-locked for an update, read- or write-locked for a lookup (C12 lock discipline).
+func (r *FnRun) guardCheck(st *State, m ssa.Value, write bool, pos token.Pos, what string) {
+	u, ok := m.(*ssa.UnOp)
+	if !ok {
+		return
+	}
+	g, ok := u.X.(*ssa.Global)
+	if !ok || g.Pkg == nil {
+		return
+	}
+	mu, ok := r.e.specs.Guards[g.Pkg.Pkg.Path()+"."+g.Name()]
+	if os.Getenv("GOVC_GUARDDBG") != "" {
+		fmt.Fprintf(os.Stderr, "guardCheck %s -> %v %v (have %v)\n", g.Pkg.Pkg.Path()+"."+g.Name(), mu, ok, r.e.specs.Guards)
+	}
+	if !ok {
+		return
+	}
+	i := strings.LastIndex(mu, ".")
+	sp := r.e.ssaPkgs[mu[:i]]
+	if sp == nil {
+		return
+	}
+	mg, ok := sp.Members[mu[i+1:]].(*ssa.Global)
+	if !ok {
+		panic(cerr("guard: unknown mutex variable %s", mu))
+	}
+	tb := r.tb()
+	addr := r.e.gaddr(mg)
+	held := tb.Select(r.e.ghost(st, "lock.held", BoolAr), addr)
+	goal := held
+	if !write {
+		goal = tb.Or(held, tb.Select(r.e.ghost(st, "lock.rheld", BoolAr), addr))
+	}
+	kind := "read"
+	if write {
+		kind = "write"
+	}
+	r.oblige(st, "guard", g.Name(), goal, pos, what+"  "+kind+" access to "+g.Name()+" with "+mg.Name()+" held", []string{"C12"})
 }
